@@ -339,6 +339,7 @@ def run(ctx):
     ctx.floor("judged:get_mask", ctx.pick(50, 1500))
     ctx.floor("judged:bijection", ctx.pick(50, 1500))
     ctx.floor("judged:array[intervals]", ctx.pick(50, 1500))
+    ctx.floor("lazy_selection_operands", ctx.pick(20, 400))       # the un-decoded / lazy-view variants must actually have run
 
 
 def replay(ctx, w):
